@@ -28,6 +28,9 @@ use crate::{
     PrefixCodec, Result,
 };
 
+/// Whatever the memory available, we always work on batches of at least this number of items.
+const MIN_ITEMS_PER_BATCH: usize = 200;
+
 /// The options available when building the arroy database.
 pub struct ArroyBuilder<'a, D: Distance, R: Rng + SeedableRng> {
     writer: &'a Writer<D>,
@@ -612,12 +615,17 @@ impl<D: Distance> Writer<D> {
 
             // For each steps of the loop we starts by creating a new sub-tree with as many items as possible
             // and then insert all the remaining items that couldn't be selected into this new created tree.
+            // The sub-tree must be built from more items than a descendant can hold: otherwise it
+            // is a single descendant again, the remaining items make it too large again, and we
+            // would loop on the same node forever.
+            let max_in_descendant = options.split_after.unwrap_or(self.dimensions);
             let (leafs, to_insert) = ImmutableLeafs::new(
                 wtxn,
                 self.database,
                 self.index,
                 &mut descendants,
                 options.available_memory.unwrap_or(usize::MAX),
+                MIN_ITEMS_PER_BATCH.max(max_in_descendant.saturating_add(1)),
             )?;
             let frozen_reader = FrozzenReader {
                 leafs: &leafs,
@@ -693,6 +701,7 @@ impl<D: Distance> Writer<D> {
                 options
                     .available_memory
                     .map_or(usize::MAX, |memory| (memory as f64 * 2.0 / 3.0).floor() as usize),
+                MIN_ITEMS_PER_BATCH,
             )?;
             let frozzen_reader =
                 FrozzenReader { leafs: &leafs, trees: &immutable_tree_nodes, concurrent_node_ids };
